@@ -77,6 +77,7 @@ def spec_case(draw, tier="quick"):
     # for later revisions stays applicable)
     models = {}
     g = {}
+    left_parents = {r["parents"][0] for r in spec["revs"] if r["parents"]}
     for rev in spec["revs"]:
         rid = rev["id"]
         # a symlink whose target resolves to itself ("a" -> "a", "b" -> "b/c")
@@ -108,6 +109,22 @@ def spec_case(draw, tier="quick"):
                         extra.append(["modify", f, pm[f]["content"]])
                     if m[f]["exec"] != pm[f]["exec"]:
                         extra.append(["chmod", f, pm[f]["exec"]])
+            if rid not in left_parents and draw(st.integers(0, 2)) == 0:
+                # inside the merge commit move an entry to another directory
+                # under its old name (only the parent directory changes); no
+                # later revision's ops were drawn against this tree
+                m2 = tm.apply_ops(tm.clone(m), extra)
+                movable = sorted(f for f in m2 if f != tm.ROOT_ID)
+                if movable:
+                    f = draw(st.sampled_from(movable))
+                    banned = set(tm.descendants(m2, f)) | {f}
+                    dirs = [d for d in tm.dirs(m2) if d not in banned and
+                            d != m2[f]["parent"] and
+                            m2[f]["name"] not in tm.names_in(m2, d) and
+                            tm.depth(m2, d) < 3]
+                    if dirs:
+                        extra.append(["rename", f, draw(st.sampled_from(dirs)),
+                                      m2[f]["name"]])
         elif rev["parents"] and draw(st.integers(0, 3)) == 0:
             # echo: make the same content change a cousin made
             anc = gm.ancestry(g, rid)
@@ -202,9 +219,9 @@ def run_spec(case, env):
                   cm.keys_of_model(models[rev["id"]]))
     revmap = {r: r for r in model.ent}
     repo = wt.branch.repository
-    cm.check_repository(repo, model, revmap, "")
+    cm.check_repository(repo, model, revmap, "", fmt=fmt)
     target = cm.fetch_copy(repo, os.path.join(d, "copy"), fmt)
-    cm.check_repository(target, model, revmap, "after-fetch")
+    cm.check_repository(target, model, revmap, "after-fetch", fmt=fmt)
     label = cm.label_of(model.all_features())
     if label is None:
         return trivial()
@@ -219,7 +236,7 @@ _line = st.sampled_from(tm.LINES + ["same\n", "x1\n", "x2\n"])
 @st.composite
 def _lop(draw, ctr):
     k = draw(st.sampled_from(["line", "line", "line", "mod", "chmod", "rename",
-                              "add", "delete", "kind", "line"]))
+                              "add", "delete", "kind", "line", "move"]))
     idx = st.sampled_from([0, 0, 0, 1, 1, 2, 3, 4, 5, 6])
     if k == "line":
         return ["line", draw(idx), draw(st.integers(0, 8)), draw(_line)]
@@ -233,6 +250,9 @@ def _lop(draw, ctr):
                 draw(st.sampled_from(["a", "b", "c", "n1", "n2"]))]
     if k == "delete":
         return ["delete", draw(idx)]
+    if k == "move":
+        # rename into another directory keeping the name
+        return ["rename", draw(idx), draw(st.integers(0, 3)), None]
     if k == "kind":
         return ["kind", draw(idx)]
     ctr[0] += 1
@@ -355,9 +375,10 @@ def run_script(case, env):
     os.makedirs(sc.root)
     model = sc.run()
     revmap = {r: r for r in model.ent}
-    cm.check_repository(sc.repo, model, revmap, "")
+    cm.check_repository(sc.repo, model, revmap, "", fmt=case["fmt"])
     target = cm.fetch_copy(sc.repo, os.path.join(d, "copy"), case["fmt"])
-    cm.check_repository(target, model, revmap, "after-fetch")
+    cm.check_repository(target, model, revmap, "after-fetch",
+                        fmt=case["fmt"])
     feats = model.all_features()
     label = cm.label_of(feats)
     if sc.setup_failure:
